@@ -505,8 +505,9 @@ def _check_values(out, got, orc, lab):
                               "max": _enc(vmax), "mean": _enc(mean)})
             continue
         z = NormalDist(0.0, 1.0).inv_cdf(1.0 - a / 2.0)
-        half = z * math.sqrt(_f(M2 / ((n - 1) * n * sc2)))
-        tol = A1 + half * (base * _kappa2(S_s, M2, n) + 1e-9) + 4 * 5e-324
+        se = math.sqrt(_f(M2 / ((n - 1) * n * sc2)))
+        half = z * se
+        tol = A1 + z * _sqrt_tol(A2 * nf / (nf - 1.0) / nf, se) + 1e-9 * half + 4 * 5e-324
         wlo = max(vmin, mean - half)
         whi = min(vmax, mean + half)
         _cmp(out, "confidence_interval", lo, wlo, tol, {"n": n, "alpha": a.hex(), "side": "lo"})
@@ -642,12 +643,14 @@ def run_case(case):
     pending_init = False
     nontrivial = False
     compared = 0
+    nmax = 0
 
     def observe(x, compare):
-        nonlocal obs_since_init, init_between, pending_init, nontrivial, compared
+        nonlocal obs_since_init, init_between, pending_init, nontrivial, compared, nmax
         if rec is not None:
             del rec.events[:]
         orc.add(x)
+        nmax = max(nmax, orc.n)
         try:
             feed(x)
         except Exception as e:                                    # noqa: BLE001
@@ -726,7 +729,6 @@ def run_case(case):
         nontrivial = True
     if nontrivial and compared:
         out.nontrivial = True
-    nmax = orc.n
     out.label("n<=%d" % next(b for b in (0, 1, 3, 10, 50, 300, 10 ** 9) if nmax <= b))
     out.info = {"final_n": orc.n, "compared_states": compared}
     return out
